@@ -5,6 +5,8 @@ CONSTANTS
   MinObjs = 4
   MaxKids = 2
   ExplicitNames = {}
+  NamedInContainers = TRUE
+  Sharing = TRUE
   ListPolicies = {"iter"}
   SeqPolicies = {"call"}
   SubPolicy = FALSE
